@@ -502,6 +502,25 @@ class VComp:
 
 _key_repr = z3.Function('key_repr', PV, z3.StringSort())
 dict_keys = z3.Function('dict_keys', PVArr, PVSeq)     # key order of a symbolically indexed dict (unspecified)
+set_members = z3.Function('set_members', PVSetS, PVSeq)  # the elements of a symbolic set in iteration order (unspecified)
+
+
+def members_facts(ctx, arr, is_set):
+    """the key / element sequence of a symbolically indexed dict / set: some order (unspecified) of exactly the
+    members; keys are strings (assumption of the symbolic-container model).  Returns the Seq term."""
+    ks = set_members(arr) if is_set else dict_keys(arr)
+    done = ctx.ghost.setdefault('__members_facts__', {})
+    if ks.get_id() in done:
+        return ks
+    done[ks.get_id()] = ks
+    i = z3.Const('q.mi.9', z3.IntSort())
+    j = z3.Const('q.mj.9', z3.IntSort())
+    k = z3.Const('q.mk.9', z3.StringSort())
+    mem = (lambda key: arr[key]) if is_set else (lambda key: arr[key] != PAbsent)
+    ctx.assume(z3.ForAll([i], z3.Implies(z3.And(i >= 0, i < z3.Length(ks)),
+                                         z3.And(PV.is_PStr(ks[i]), mem(PV.s(ks[i]))))))
+    ctx.assume(z3.ForAll([k], z3.Implies(mem(k), z3.Exists([j], z3.And(j >= 0, j < z3.Length(ks), ks[j] == PV.PStr(k))))))
+    return ks
 NONSTR = '\x00'     # prefix of the index of a non-string key (never a prefix of a MIB / symbol name)
 
 
@@ -609,6 +628,8 @@ def lift(v):
         return v.ref
     if isinstance(v, (VFunc, VBound, VClass, VBuiltin, VModule)):
         return PV.PRef(z3.StringVal('callable:' + getattr(v, 'name', 'bound')), z3.IntVal(0))
+    if isinstance(v, VKeys) and getattr(v, 'ctx', None) is not None:
+        return PV.PList(members_facts(v.ctx, v.arr, False))
     raise Unsupported('cannot lift %r' % (v,))
 
 
